@@ -158,6 +158,8 @@ def _tr_inline(tr, spell, deck):
         return '(' + ' '.join(tr_params_star(tr)) + ')'
     if spell == '3':
         return '(' + ' '.join(tr_params(tr, '3')) + ')'
+    if spell == '13':
+        return '(' + ' '.join(tr_params(tr)) + ' 1)'
     return '(' + ' '.join(tr_params(tr)) + ')'
 
 
